@@ -171,10 +171,19 @@ def replay_symmetry(arg):
     tight = n % 3 == 0
     basis = []
     for k in range(nsh):
-        if tight and k == 0:
+        if tight and k == 0 and n % 2:
             basis.append(cg.shell(rng, 0, K=2, M=1, lo=5.0e3, hi=1.0e5))
-        elif tight and k == 1:
+        elif tight and k == 1 and n % 2:
             basis.append(cg.shell(rng, rng.choice([2, 3]), K=1, M=1, lo=0.1, hi=0.3))
+        elif tight and k == 0:
+            # a tight shell whose primitives are listed in ASCENDING order of the exponent, a diffuse one first
+            sh_ = cg.shell(rng, rng.choice([1, 2]), K=3, M=1, lo=0.2, hi=6.0)
+            sh_["exps"] = [cg.exponent(rng, 0.4, 0.8, 24), cg.exponent(rng, 15.0, 30.0, 24), cg.exponent(rng, 300.0, 500.0, 24)]
+            basis.append(sh_)
+        elif tight and k == 1:
+            sh_ = cg.shell(rng, rng.choice([1, 2]), K=2, M=1, lo=0.2, hi=6.0)
+            sh_["exps"] = [cg.exponent(rng, 0.9, 1.3, 24), cg.exponent(rng, 0.04, 0.08, 24)]
+            basis.append(sh_)
         else:
             basis.append(cg.shell(rng, rng.randint(0, 2), K=rng.randint(1, 2), M=rng.randint(1, 2), lo=0.2, hi=6.0))
     # the three dispatch paths (all-Cartesian, all-spherical, mixed) fill the copied blocks in separate code
